@@ -169,10 +169,10 @@ Definition compare_M (t : ptype) (a b : bytes) : sres Z :=
   | TByteArray | TFlba => SOk (bytes_cmp a b)
   end.
 
-(** M: the switch in carquet_statistics_range_overlaps (everything but the four numeric types is bytes) *)
+(** M: the switch in carquet_statistics_range_overlaps (everything but the four numeric types and INT96 is bytes) *)
 Definition compare_M_overlap (t : ptype) (a b : bytes) : sres Z :=
   match t with
-  | TInt32 | TInt64 | TFloat | TDouble => compare_M t a b
+  | TInt32 | TInt64 | TFloat | TDouble | TInt96 => compare_M t a b
   | _ => SOk (bytes_cmp a b)
   end.
 
@@ -184,6 +184,7 @@ Definition compare_P (t : ptype) (a b : bytes) : sres Z :=
   | TInt64 => if typed 8 then cmp_int 8 64 a b else SOk (bytes_cmp a b)
   | TFloat => if typed 4 then cmp_float_with (fcmp_R is_nan32 fkey32) 4 a b else SOk (bytes_cmp a b)
   | TDouble => if typed 8 then cmp_float_with (fcmp_R is_nan64 fkey64) 8 a b else SOk (bytes_cmp a b)
+  | TInt96 => if typed 12 then cmp_int96 a b else SOk (bytes_cmp a b)
   | _ => SOk (bytes_cmp a b)
   end.
 
